@@ -252,6 +252,25 @@ Section Insert.
     rewrite F_snoc, (IH H1). unfold lm_ins. destruct p as [k v]. apply ins_notin. exact H2.
   Qed.
 
+  (* ---- entries of a map come from the source: any predicate on keys and values is preserved ---- *)
+  Section AllP.
+    Variable P : T -> Prop.
+    Definition allP (l : list entry) : Prop := Forall (fun p => P (fst p) /\ P (snd p)) l.
+    Lemma allP_ins k v m : allP m -> P k -> P v -> allP (g_insert k v m).
+    Proof.
+      intros Hm Hk Hv. induction Hm as [|p m [A B] Hm IH]; [constructor; [split; assumption|constructor]|].
+      rewrite ins_cons. destruct (eqb k (fst p)).
+      - apply Forall_app. split; [exact Hm|]. constructor; [split; assumption|constructor].
+      - constructor; [split; assumption|exact IH].
+    Qed.
+    Lemma allP_F l : allP l -> allP (F l).
+    Proof.
+      induction l as [|p l IH] using rev_ind; intros H; [constructor|].
+      apply Forall_app in H. destruct H as [H1 H2]. inversion H2 as [|? ? [A B] _]; subst.
+      rewrite F_snoc. unfold lm_ins. apply allP_ins; [apply IH; exact H1|exact A|exact B].
+    Qed.
+  End AllP.
+
   (* ---- re-collecting a map through an equality-preserving function ---- *)
   Section Recollect.
     Variable f : T -> T.
